@@ -196,9 +196,32 @@ def rule_B2(ctx):
     m = ctx.prog.module(MIDI)
     fi = ctx.fn(MIDI, "MidiNote.from_int_a0", "B2")
     ti = ctx.fn(MIDI, "MidiNote.to_int_a0", "B2")
+    def as_dict(v):
+        """a dict literal, or dict(<sequence of (key, value) pairs>) read as one"""
+        if isinstance(v, ast.Dict):
+            return v
+        if isinstance(v, ast.Call) and isinstance(v.func, ast.Name) and v.func.id == "dict" and len(v.args) == 1 and not v.keywords \
+                and isinstance(v.args[0], (ast.Tuple, ast.List)) and all(isinstance(e, (ast.Tuple, ast.List)) and len(e.elts) == 2 for e in v.args[0].elts):
+            d = ast.Dict(keys=[e.elts[0] for e in v.args[0].elts], values=[e.elts[1] for e in v.args[0].elts])
+            return ast.copy_location(d, v)
+        return None
+
     def only_dict(fn):
-        ds = [d for d in own_nodes(fn) if isinstance(d, ast.Dict) and len(d.keys) >= 6]
-        return ds[0] if len(ds) == 1 else None
+        ds = [d for d in (as_dict(n) for n in own_nodes(fn)) if d is not None and len(d.keys) >= 6]
+        if len(ds) == 1:
+            return ds[0]
+        if ds:
+            return None
+        # the table may live at module level: the one name the function subscripts that is bound to a table there
+        cands = []
+        for n in own_nodes(fn):
+            if isinstance(n, ast.Subscript) and isinstance(n.value, ast.Name):
+                r = ctx.prog.resolve(m, n.value.id)
+                if r and r[0] == "assign" and r[2] is m:
+                    d = as_dict(r[1])
+                    if d is not None and len(d.keys) >= 6 and not any(d is c for c in cands):
+                        cands.append(d)
+        return cands[0] if len(cands) == 1 else None
 
     d1, d2 = only_dict(fi), only_dict(ti)
     if d1 is None or d2 is None:
@@ -376,6 +399,22 @@ def rule_B3(ctx):
         ok2 = slope_p * slope_b == 1 and slope_b * icpt_p + icpt_b == 0
         ctx.ob("B3", bf, "the two lines are exact inverses over the rationals", ok2, f"{slope_p}*{slope_b}, {slope_b * icpt_p + icpt_b}", inst="inverse")
     ad = ctx.fn(DT, "AkaiTuneCents", "B3")
-    t = full(ad)
-    ok = "lambda x, y: parse_akai_tune_cents(x)" in t and "lambda x, y: build_akai_tune_cents(x)" in t
+    # the adapter's decoder / encoder (positional or keyword, lambda or - after normalisation - local function) as canonical lambdas
+    ok = False
+    for p_ in run_paths(ctx, ad, rule="B3"):
+        if p_.end != "return" or p_.ret_node is None:
+            continue
+        from .sem import path_return_ast
+        e_ = path_return_ast(p_)
+        if isinstance(e_, ast.Call) and norm(e_.func) == "ExprAdapter":
+            args_ = list(e_.args[1:]) + [None, None]
+            kw_ = {k.arg: k.value for k in e_.keywords}
+            dec_, enc_ = kw_.get("decoder", args_[0]), kw_.get("encoder", args_[1])
+
+            def lam_key(l_):
+                if not isinstance(l_, ast.Lambda) or not l_.args.args:
+                    return None
+                ev_ = Evaluator(env={l_.args.args[0].arg: Term.atom("obj")})
+                return ev_.ev(l_.body).key()
+            ok = lam_key(dec_) == "parse_akai_tune_cents(obj)" and lam_key(enc_) == "build_akai_tune_cents(obj)"
     ctx.ob("B3", ad, "AkaiTuneCents decodes with parse_ and encodes with build_", ok, "", inst="adapter")
